@@ -609,7 +609,7 @@ def c14_refusals(seed, tier):
     R = Result()
     W = Work("c14")
     try:
-        reps = 3 if tier == "thorough" else 1
+        reps = 12 if tier == "thorough" else 1
         for rep in range(reps):
             src = gen_source(rng, 3000) or b"x" * 300
             arch, apath, cfg_tok, hl = make_archive(W, rng, src)
@@ -748,7 +748,7 @@ def c16_files(seed, tier):
     R = Result()
     W = Work("c16")
     try:
-        n = 10 if tier == "thorough" else 3
+        n = 24 if tier == "thorough" else 3
         for i in range(n):
             src = gen_source(rng, 5000) or b"y" * 500
             arch, apath, cfg_tok, hl = make_archive(W, rng, src, compression=rng.choice(["none", "brotli"]))
@@ -926,7 +926,7 @@ def c13_writes(seed, tier):
     R = Result()
     W = Work("c13")
     try:
-        n = 120 if tier == "thorough" else 26
+        n = 400 if tier == "thorough" else 26
         for i in range(n):
             big = (i % 13 == 5)
             compression = "none"
@@ -1056,7 +1056,7 @@ def c02_seeds(seed, tier):
     R = Result()
     W = Work("c02")
     try:
-        n = 150 if tier == "thorough" else 30
+        n = 400 if tier == "thorough" else 30
         for i in range(n):
             src = gen_source(rng, 4000)
             if len(src) < 2:
@@ -1372,7 +1372,7 @@ def c05_crash(seed, tier):
                 if mode == "fail-once":
                     idxs |= set(range(len(writes))) if (tier == "thorough" or len(writes) <= 10) else set(rng.sample(range(len(writes)), 10))
                 for k in sorted(idxs):
-                    if k < 0 or (mode == "tear" and writes[k][2] < 2):
+                    if k < 0 or k >= len(writes) or (mode == "tear" and writes[k][2] < 2):
                         continue        # a one-byte write cannot be torn
                     outp = fresh_out()
                     cls, rc, so, se = clone_cli(W, apath, outp, seeds=seed_paths, seed_output=in_place, preload=shim,
@@ -1398,7 +1398,7 @@ def c04_corruption(seed, tier):
     R = Result()
     W = Work("c04")
     try:
-        n = 12 if tier == "thorough" else 4
+        n = 24 if tier == "thorough" else 4
         for i in range(n):
             src = gen_source(rng, 1200)
             if len(src) < 100:
@@ -1549,7 +1549,7 @@ def c17_conforming(seed, tier):
     R = Result()
     W = Work("c17")
     try:
-        n = 200 if tier == "thorough" else 40
+        n = 800 if tier == "thorough" else 40
         for i in range(n):
             src = gen_source(rng, 3000)
             if rng.random() < 0.1:
@@ -1630,7 +1630,7 @@ def c11_conformance(seed, tier):
     R = Result()
     W = Work("c11")
     try:
-        n = 150 if tier == "thorough" else 30
+        n = 600 if tier == "thorough" else 30
         version = None
         try:
             version = re.search(r'^version = "([^"]+)"', open(os.path.join(core.REPO, "Cargo.toml")).read(), re.M).group(1)
